@@ -1,4 +1,5 @@
 import BU.Properties.C11
+import BU.Properties.C11_Detect
 #print axioms C11.consts_tie
 #print axioms C11.segwit_prefixes
 #print axioms C11.hrp_cases
@@ -8,3 +9,12 @@ import BU.Properties.C11
 #print axioms C11.accept_sound
 #print axioms C11.predicate_valid
 #print axioms C11.predicate_rejects
+#print axioms C11.syndrome_eq
+#print axioms C11.foldl_xorWord
+#print axioms C11.polymod_xor
+#print axioms C11.weight_cons
+#print axioms C11.fold_weight_zero
+#print axioms C11.fold_weight_one
+#print axioms C11.fold_weight_two
+#print axioms C11.syndrome_visible
+#print axioms C11.detects_up_to_two
